@@ -10,6 +10,7 @@ pub mod model;
 pub mod report;
 pub mod rng;
 pub mod srng;
+pub mod wsmodel;
 
 
 pub use args::Args;
